@@ -206,6 +206,11 @@ fn corpus_programs(tier: &str, with_comments: bool) -> (Vec<(String, String)>, V
     for p in sqs {
         progs.push(("SQLIVE".into(), p));
     }
+    let geos = corpus::gen_geo();
+    let geo_count = geos.len();
+    for p in geos {
+        progs.push(("GEO".into(), p));
+    }
     let dses = corpus::gen_dse();
     let dse_count = dses.len();
     for p in dses {
@@ -258,6 +263,7 @@ fn corpus_programs(tier: &str, with_comments: bool) -> (Vec<(String, String)>, V
         "LIVE": format!("{} programs keeping 3..14 values alive across I/O and far moves (seed {})", live_count, sd),
         "NEST": format!("{} loops whose body holds a pointer-moving inner loop followed by loops / I/O at the shifted offsets (seed {})", nest_count, sd),
         "SQLIVE": format!("{} products (x*x or x*b) computed between two uses of other live values (seed {})", sq_count, sd),
+        "GEO": format!("{} programs: counted loops updating a cell as y = k*y + d (geometric closed form), constant and input-dependent counts and start values; a two-cell linear recurrence (deterministic)", geo_count),
         "DSE": format!("{} programs: store, barrier (moving scans, moves, loops), second store at the same relative offset, dump of the neighbourhood; constant and input-dependent stores (deterministic)", dse_count),
         "ROT": format!("{} k-cell rotations with arithmetic inside an input-controlled loop, k up to 16 (stack temporaries in the JIT; seed {})", rot_count, sd),
         "STRUCT": format!("{} structured programs (assignments, preserving/destructive multiply-adds, counted loops, ifs over 4 variables; seed {})", struct_count, sd),
@@ -670,6 +676,7 @@ pub fn run_check(property: &str, tier: &str, part: Option<&str>, worker: bool) -
         progs.extend(corpus::gen(sd, if thorough_tier { 300 } else { 100 }));
         progs.extend(corpus::gen_struct(sd, if thorough_tier { 600 } else { 150 }));
         progs.extend(corpus::gen_rand(sd, if thorough_tier { 3000 } else { 600 }));
+        progs.extend(corpus::gen_geo());
         progs.retain(|p| p.contains('[') && p.len() <= 160);
         // interleave the families
         let mut r = corpus::Rng::new(sd ^ 0x54A9E5);
